@@ -6,8 +6,9 @@ introduced locals and private helpers the comparison was extracted into do not m
 
   * the request's `component_ids` is a concrete list: known ids / empty / an id without a cache
     (three input shapes; the last two only exercise the validation prefix, which answers `Error`);
-  * `self._get_bounds(x)` yields the record of the four symbolic enforced bounds (and the run's log
-    notes whether `x` is the `pairs_data` parameter object);
+  * the call of the method that aggregates the enforced PowerBounds from the component data
+    (`_get_bounds`, bound by role: see bounds_source) yields the record of the four symbolic enforced
+    bounds (and the run's log notes whether its argument is the `pairs_data` parameter object);
   * any other private method called on `self` is resolved in BatteryManager and interpreted;
   * the order facts are  il <= el <= ZERO <= eu <= iu  (the property's consistency assumption) and
     `is_close_to_zero(power)` is read as `power == 0` (its tolerance is a float detail).
@@ -36,6 +37,7 @@ class AdmInterp(OrderInterp):
         super().__init__(prog, prog.module(BM))
         self.ctx: dict[str, Any] = {}
         self.manager = prog.cls(f"{BM}:{MANAGER}")
+        self.source = bounds_source(prog)
 
     def unknown_name(self, ident: str, node: ast.AST) -> Any:
         if ident == "is_close_to_zero":
@@ -66,9 +68,9 @@ class AdmInterp(OrderInterp):
 
     def obj_method(self, base: Obj, attr: str, node: ast.AST) -> Any:
         if base.cls == MANAGER:
-            if attr == GET_BOUNDS:
-                return ("builtin", "get_bounds")
             m = self.prog.resolve_method(self.manager, attr)
+            if m is not None and m.node is self.source.node:
+                return ("builtin", "get_bounds")
             if m is None or not attr.startswith("_"):
                 raise AnalysisError(f"attribute self.{attr} not modelled")
             decos = {d.id for d in m.node.decorator_list if isinstance(d, ast.Name)}
@@ -105,6 +107,44 @@ class AdmInterp(OrderInterp):
             finally:
                 self.module_stack.pop()
         return super().apply(fn, pos, kw, node)
+
+
+def bounds_source(prog: Program) -> FuncInfo:
+    """The function playing the role of `_get_bounds`: the private BatteryManager method reachable from
+    _check_request (through private methods) whose result is a freshly built PowerBounds record — the
+    enforced bounds aggregated from the component data.  Bound by that role; the name is only used to
+    break a tie.  No such function: AnalysisError (the role has vanished)."""
+    from ..engine.sympath import SymUnsupported, sym_paths
+
+    manager = prog.cls(f"{BM}:{MANAGER}")
+    start = prog.func(f"{BM}:{MANAGER}._check_request")
+    seen: dict[str, FuncInfo] = {}
+    frontier = [start]
+    for _ in range(4):
+        nxt = []
+        for f in frontier:
+            for c in ast.walk(f.node):
+                if isinstance(c, ast.Call) and isinstance(c.func, ast.Attribute) and isinstance(c.func.value, ast.Name) \
+                        and c.func.value.id in ("self", "cls", MANAGER) and c.func.attr.startswith("_"):
+                    m = prog.resolve_method(manager, c.func.attr)
+                    if m is not None and m.name not in seen and m.name != start.name:
+                        seen[m.name] = m
+                        nxt.append(m)
+        frontier = nxt
+    cands = []
+    for m in seen.values():
+        try:
+            rets = [p.ret for p in sym_paths(m.node) if p.exit == "return"]
+        except SymUnsupported:
+            continue
+        if rets and all(isinstance(r, ast.Call) and ast.unparse(r.func).split(".")[-1] == "PowerBounds" for r in rets):
+            cands.append(m)
+    if len(cands) > 1:
+        cands = [m for m in cands if m.name == GET_BOUNDS] or cands
+    if len(cands) != 1:
+        raise AnalysisError(f"{start.qual}: the method aggregating the enforced PowerBounds from the component "
+                            f"data is not identified ({sorted(m.name for m in cands)})")
+    return cands[0]
 
 
 def check_request_tail(prog: Program) -> tuple[FuncInfo, ast.FunctionDef]:
@@ -167,5 +207,5 @@ def explore_admission(prog: Program, post: Callable[[AdmInterp, Any, dict[str, A
 
     outs = it.explore(body, make_args, lambda res: post(it, res, it.ctx))
     if not any(reached_bounds(o) for o in outs):
-        raise AnalysisError(f"{fn.qual}: no abstract path reads self.{GET_BOUNDS}(...)")
+        raise AnalysisError(f"{fn.qual}: no abstract path reads self.{it.source.name}(...)")
     return fn, outs
